@@ -69,7 +69,8 @@ def build_ops():
 
 def explore_builder(res: Res, first, tier, seed):
     """Every sequence of 3 edge insertions on ONE live graph object (3 names); after every insertion every query is
-    identified on that object and the estimand is evaluated on the witness of the graph as it is now."""
+    identified on that object and the estimand is evaluated on the witness of the graph as it is now.  The treatment and
+    outcome sets are the same objects throughout a sequence."""
     import itertools as itt
 
     from y0.graph import NxMixedGraph
@@ -83,6 +84,7 @@ def explore_builder(res: Res, first, tier, seed):
         for n in BUILD_NAMES:
             y.add_node(V(n))
         di, bi, hist = [], [], []
+        pool = {}  # the caller's argument sets live as long as the graph object: one set object per X and per Y
         for k in seq:
             kind, u, v = ops[k]
             hist.append([kind, u, v])
@@ -101,7 +103,7 @@ def explore_builder(res: Res, first, tier, seed):
             before = len(res.violations)
             for x, yy in disjoint_pairs(g.nodes):
                 case = {"builder_ops": list(hist), "graph": g.to_json(), "X": list(x), "Y": list(yy)}
-                check_query(res, g, y, x, yy, models, case)
+                check_query(res, g, y, x, yy, models, case, pool=pool)
             if len(res.violations) > before:
                 break
 
@@ -141,13 +143,20 @@ def truth(m: SCM, x, y, env):
     return m.prob(do, frozenset((n, env[(n, None)]) for n in y))
 
 
-def check_query(res: Res, g: G, yg, x, y, models, case):
+def check_query(res: Res, g: G, yg, x, y, models, case, pool=None):
     from y0.algorithm.identify import identify_outcomes
 
     res.states += 1
     res.transitions += 1
+    if pool is None:
+        tx, ty = {V(n) for n in x}, {V(n) for n in y}
+    else:
+        # builder phase: the same set objects are handed to every call of the sequence that asks about the same X (Y);
+        # if a call changes them, a later answer is for another query than the one the caller wrote down
+        tx = pool.setdefault(("x", x), {V(n) for n in x})
+        ty = pool.setdefault(("y", y), {V(n) for n in y})
     try:
-        est = identify_outcomes(yg, treatments={V(n) for n in x}, outcomes={V(n) for n in y})
+        est = identify_outcomes(yg, treatments=tx, outcomes=ty)
     except Exception as e:  # noqa  (totality is C02's clause; here it is only counted)
         res.outcomes[f"exception:{type(e).__name__}"] += 1
         return
